@@ -35,7 +35,15 @@ the crate's answer for every name of the `oci` suite (operation `nameck`: every 
 `a 0 . _ - / A`, plus a pool of long and odd names) and the judge compares it with the Lean matcher on the same bytes
 (oracle C17; stream `nameck`); an independent hand-written recogniser in the harness is compared as well. -/
 
-theorem C17_route_table : Generated.ociRoutes = [([71, 69, 84], [47, 118, 50, 40, 47, 41], [104, 97, 110, 100, 108, 101, 95, 114, 111, 111, 116, 95, 103, 101, 116]), ([71, 69, 84], [47, 118, 50, 47, 123, 42, 110, 97, 109, 101, 58, 110, 97, 109, 101, 125, 47, 98, 108, 111, 98, 115, 47, 123, 100, 105, 103, 101, 115, 116, 125, 40, 47, 41], [104, 97, 110, 100, 108, 101, 95, 98, 108, 111, 98, 95, 112, 117, 108, 108]), ([72, 69, 65, 68], [47, 118, 50, 47, 123, 42, 110, 97, 109, 101, 58, 110, 97, 109, 101, 125, 47, 98, 108, 111, 98, 115, 47, 123, 100, 105, 103, 101, 115, 116, 125, 40, 47, 41], [104, 97, 110, 100, 108, 101, 95, 98, 108, 111, 98, 95, 112, 117, 108, 108]), ([71, 69, 84], [47, 118, 50, 47, 123, 42, 110, 97, 109, 101, 58, 110, 97, 109, 101, 125, 47, 109, 97, 110, 105, 102, 101, 115, 116, 115, 47, 123, 114, 101, 102, 101, 114, 101, 110, 99, 101, 125, 40, 47, 41], [104, 97, 110, 100, 108, 101, 95, 109, 97, 110, 105, 102, 101, 115, 116, 95, 112, 117, 108, 108]), ([72, 69, 65, 68], [47, 118, 50, 47, 123, 42, 110, 97, 109, 101, 58, 110, 97, 109, 101, 125, 47, 109, 97, 110, 105, 102, 101, 115, 116, 115, 47, 123, 114, 101, 102, 101, 114, 101, 110, 99, 101, 125, 40, 47, 41], [104, 97, 110, 100, 108, 101, 95, 109, 97, 110, 105, 102, 101, 115, 116, 95, 112, 117, 108, 108]), ([80, 79, 83, 84], [47, 118, 50, 47, 123, 42, 110, 97, 109, 101, 58, 110, 97, 109, 101, 125, 47, 98, 108, 111, 98, 115, 47, 117, 112, 108, 111, 97, 100, 115, 40, 47, 41], [104, 97, 110, 100, 108, 101, 95, 98, 108, 111, 98, 95, 112, 117, 115, 104, 95, 112, 111, 115, 116]), ([80, 85, 84], [47, 118, 50, 47, 123, 42, 110, 97, 109, 101, 58, 110, 97, 109, 101, 125, 47, 98, 108, 111, 98, 115, 47, 117, 112, 108, 111, 97, 100, 115, 47, 123, 114, 101, 102, 101, 114, 101, 110, 99, 101, 125, 40, 47, 41], [104, 97, 110, 100, 108, 101, 95, 98, 108, 111, 98, 95, 112, 117, 115, 104, 95, 112, 117, 116]), ([80, 85, 84], [47, 118, 50, 47, 123, 42, 110, 97, 109, 101, 58, 110, 97, 109, 101, 125, 47, 109, 97, 110, 105, 102, 101, 115, 116, 115, 47, 123, 114, 101, 102, 101, 114, 101, 110, 99, 101, 125, 40, 47, 41], [104, 97, 110, 100, 108, 101, 95, 109, 97, 110, 105, 102, 101, 115, 116, 95, 112, 117, 116]), ([71, 69, 84], [47, 118, 50, 47, 123, 42, 110, 97, 109, 101, 58, 110, 97, 109, 101, 125, 47, 116, 97, 103, 115, 47, 108, 105, 115, 116, 40, 47, 41], [104, 97, 110, 100, 108, 101, 95, 116, 97, 103, 115, 95, 103, 101, 116]), ([68, 69, 76, 69, 84, 69], [47, 118, 50, 47, 123, 42, 110, 97, 109, 101, 58, 110, 97, 109, 101, 125, 47, 109, 97, 110, 105, 102, 101, 115, 116, 115, 47, 123, 114, 101, 102, 101, 114, 101, 110, 99, 101, 125, 40, 47, 41], [104, 97, 110, 100, 108, 101, 95, 109, 97, 110, 105, 102, 101, 115, 116, 95, 100, 101, 108, 101, 116, 101]), ([68, 69, 76, 69, 84, 69], [47, 118, 50, 47, 123, 42, 110, 97, 109, 101, 58, 110, 97, 109, 101, 125, 47, 98, 108, 111, 98, 115, 47, 123, 100, 105, 103, 101, 115, 116, 125, 40, 47, 41], [104, 97, 110, 100, 108, 101, 95, 98, 108, 111, 98, 95, 100, 101, 108, 101, 116, 101])] := by decide
+/-- the endpoints end-1 … end-10 of the statement under their methods, each with the optional trailing slash and its
+handler: (method, template, handler) -/
+def specRouteTable : List (Bytes × Bytes × Bytes) := [([71, 69, 84], [47, 118, 50, 40, 47, 41], [104, 97, 110, 100, 108, 101, 95, 114, 111, 111, 116, 95, 103, 101, 116]), ([71, 69, 84], [47, 118, 50, 47, 123, 42, 110, 97, 109, 101, 58, 110, 97, 109, 101, 125, 47, 98, 108, 111, 98, 115, 47, 123, 100, 105, 103, 101, 115, 116, 125, 40, 47, 41], [104, 97, 110, 100, 108, 101, 95, 98, 108, 111, 98, 95, 112, 117, 108, 108]), ([72, 69, 65, 68], [47, 118, 50, 47, 123, 42, 110, 97, 109, 101, 58, 110, 97, 109, 101, 125, 47, 98, 108, 111, 98, 115, 47, 123, 100, 105, 103, 101, 115, 116, 125, 40, 47, 41], [104, 97, 110, 100, 108, 101, 95, 98, 108, 111, 98, 95, 112, 117, 108, 108]), ([71, 69, 84], [47, 118, 50, 47, 123, 42, 110, 97, 109, 101, 58, 110, 97, 109, 101, 125, 47, 109, 97, 110, 105, 102, 101, 115, 116, 115, 47, 123, 114, 101, 102, 101, 114, 101, 110, 99, 101, 125, 40, 47, 41], [104, 97, 110, 100, 108, 101, 95, 109, 97, 110, 105, 102, 101, 115, 116, 95, 112, 117, 108, 108]), ([72, 69, 65, 68], [47, 118, 50, 47, 123, 42, 110, 97, 109, 101, 58, 110, 97, 109, 101, 125, 47, 109, 97, 110, 105, 102, 101, 115, 116, 115, 47, 123, 114, 101, 102, 101, 114, 101, 110, 99, 101, 125, 40, 47, 41], [104, 97, 110, 100, 108, 101, 95, 109, 97, 110, 105, 102, 101, 115, 116, 95, 112, 117, 108, 108]), ([80, 79, 83, 84], [47, 118, 50, 47, 123, 42, 110, 97, 109, 101, 58, 110, 97, 109, 101, 125, 47, 98, 108, 111, 98, 115, 47, 117, 112, 108, 111, 97, 100, 115, 40, 47, 41], [104, 97, 110, 100, 108, 101, 95, 98, 108, 111, 98, 95, 112, 117, 115, 104, 95, 112, 111, 115, 116]), ([80, 85, 84], [47, 118, 50, 47, 123, 42, 110, 97, 109, 101, 58, 110, 97, 109, 101, 125, 47, 98, 108, 111, 98, 115, 47, 117, 112, 108, 111, 97, 100, 115, 47, 123, 114, 101, 102, 101, 114, 101, 110, 99, 101, 125, 40, 47, 41], [104, 97, 110, 100, 108, 101, 95, 98, 108, 111, 98, 95, 112, 117, 115, 104, 95, 112, 117, 116]), ([80, 85, 84], [47, 118, 50, 47, 123, 42, 110, 97, 109, 101, 58, 110, 97, 109, 101, 125, 47, 109, 97, 110, 105, 102, 101, 115, 116, 115, 47, 123, 114, 101, 102, 101, 114, 101, 110, 99, 101, 125, 40, 47, 41], [104, 97, 110, 100, 108, 101, 95, 109, 97, 110, 105, 102, 101, 115, 116, 95, 112, 117, 116]), ([71, 69, 84], [47, 118, 50, 47, 123, 42, 110, 97, 109, 101, 58, 110, 97, 109, 101, 125, 47, 116, 97, 103, 115, 47, 108, 105, 115, 116, 40, 47, 41], [104, 97, 110, 100, 108, 101, 95, 116, 97, 103, 115, 95, 103, 101, 116]), ([68, 69, 76, 69, 84, 69], [47, 118, 50, 47, 123, 42, 110, 97, 109, 101, 58, 110, 97, 109, 101, 125, 47, 109, 97, 110, 105, 102, 101, 115, 116, 115, 47, 123, 114, 101, 102, 101, 114, 101, 110, 99, 101, 125, 40, 47, 41], [104, 97, 110, 100, 108, 101, 95, 109, 97, 110, 105, 102, 101, 115, 116, 95, 100, 101, 108, 101, 116, 101]), ([68, 69, 76, 69, 84, 69], [47, 118, 50, 47, 123, 42, 110, 97, 109, 101, 58, 110, 97, 109, 101, 125, 47, 98, 108, 111, 98, 115, 47, 123, 100, 105, 103, 101, 115, 116, 125, 40, 47, 41], [104, 97, 110, 100, 108, 101, 95, 98, 108, 111, 98, 95, 100, 101, 108, 101, 116, 101])]
+
+/-- the example registers exactly the routes of `specRouteTable` — as a set: every expected registration is there, nothing
+else is, nothing twice. The order of the registrations is not part of the property (C05: routing does not depend on it). -/
+theorem C17_route_table :
+    (specRouteTable.all (fun x => Generated.ociRoutes.contains x) && Generated.ociRoutes.all (fun x => specRouteTable.contains x) &&
+      Generated.ociRoutes.length == specRouteTable.length) = true := by decide
 
 theorem C17_name_pattern : Generated.ociNamePattern = [94, 91, 97, 45, 122, 48, 45, 57, 93, 43, 40, 40, 92, 46, 124, 95, 124, 95, 95, 124, 45, 43, 41, 91, 97, 45, 122, 48, 45, 57, 93, 43, 41, 42, 40, 92, 47, 91, 97, 45, 122, 48, 45, 57, 93, 43, 40, 40, 92, 46, 124, 95, 124, 95, 95, 124, 45, 43, 41, 91, 97, 45, 122, 48, 45, 57, 93, 43, 41, 42, 41, 42, 36] ∧ Generated.ociConstraintName = [110, 97, 109, 101] := by decide
 
